@@ -415,6 +415,8 @@ def coverage_case(cid="coverage"):
             M("paint", [P("in", "Rgb", "colour"), P("in", "uint16", "depth")]),
             M("probe", [P("out", "Rgb", "colour"), P("out", "uint16", "depth")]),
             M("route_in", [P("in", "HR32", "rt")]),
+            M("arr_bundle", [P("in", "IPeer", "xs", 2), P("out", "uint32", "a"), P("out", "uint32", "b")]),
+            M("obj_bundle", [P("in", "IPeer", "x"), P("out", "uint16", "a"), P("out", "uint64", "b"), P("out", "IPeer", "y")]),
             M("swap_arrays", [P("in", "IPeer", "xs", 2), P("in", "uint16", "n"), P("out", "IPeer", "ys", 2)]),
             M("attach", [P("in", "H24", "slot"), P("in", "IPeer", "extras", 2)]),
             M("detach", [P("out", "H24", "slot"), P("out", "IPeer", "extras", 2)]),
